@@ -798,7 +798,23 @@ class ElemEngine:
                             e = self.stored_into(genv, ('arg', i + 1, g.names.get(i + 1)))
                             if e is not None:
                                 add(e)
-            # explicit loop items holding &mut views (for row in self { row[col] = ... })
+            # explicit loop items holding &mut views (for row in self { row[col] = ... }, for pair in v.chunks_exact_mut(2) { pair[0] += .. })
+            def chain_touches(it):
+                if same_obj(it):
+                    return True
+                if tag(it) == 'call':
+                    return any(chain_touches(x) for x in it[2])
+                if tag(it) in ('index', 'field', 'deref', 'cast'):
+                    return chain_touches(it[1] if tag(it) != 'cast' else it[2])
+                return False
+            for s in f.stores():
+                r = s.target
+                depth = 0
+                while tag(r) in ('index', 'field', 'deref') and depth < 6:
+                    r = r[1]
+                    depth += 1
+                if tag(r) == 'item' and depth > 0 and chain_touches(r[2]):
+                    add(self.ev(env, s.value))
             self._memo[mkey] = out
             return out
         finally:
